@@ -291,11 +291,11 @@ def plan(tier, seed, dev="NoDev"):
         for c in CONFIGS:                                           # every 2-request history, all configurations
             add("hard", 1, nh * no * nf, nreq=2, full=1, **c)
         for c in (dict(maxsize=2, retries=1, seg="slurp"),):
-            add("hard", 4, nc * nco * nc * nco * nf, nreq=3, full=2, s1="CoreScripts", o1="CoreOps", sn="CoreScripts",
+            add("hard", 2, nc * nco * nc * nco * nf, nreq=3, full=2, s1="CoreScripts", o1="CoreOps", sn="CoreScripts",
                 on="CoreOps", **c)                                  # covering 3-request histories
         for c in (CONFIGS[1], CONFIGS[2], CONFIGS[4], CONFIGS[7]):
             add("s4", 1, ns4 * no * nf * nf, nreq=3, full=1, s1="S4Scripts", **c)
-        for c in (CONFIGS[0], CONFIGS[3], CONFIGS[5], CONFIGS[6]):  # unsolicited bytes behind a prefix (CRLF, SP, ...)
+        for c in (CONFIGS[0], CONFIGS[7]):                          # unsolicited bytes behind a prefix (CRLF, SP, ...)
             add("pre", 1, npre * no * nf, nreq=2, full=1, s1="PreScripts", **c)
     else:
         cover = [CONFIGS[0], CONFIGS[3], CONFIGS[5], CONFIGS[6]]      # pairwise cover of maxsize x retries x seg
@@ -315,7 +315,7 @@ def plan(tier, seed, dev="NoDev"):
 
 def simulation_jobs(tier, seed, dev="NoDev"):
     """Random behaviours of 4 requests over the full sets (incl. in-flight tails at any position)."""
-    n, per = (2, 150) if tier == "quick" else (16, 2500)
+    n, per = (1, 250) if tier == "quick" else (16, 2500)
     jobs = []
     for j in range(n):
         c = CONFIGS[(seed + j) % len(CONFIGS)]
